@@ -58,8 +58,10 @@ pub struct Interpreter<TStdlib: Stdlib, TStdIn: Input, TStdOut: Printer, TLpt1: 
 
     /// Holds addresses to RETURN to after a GOSUB
     /// The addresses of the pending GOSUB instructions, each with the depth
-    /// of the call stack at the time (a RETURN only matches a GOSUB of its own activation).
-    go_sub_address_stack: Vec<(usize, usize)>,
+    /// of the call stack at the time (a RETURN only matches a GOSUB of its own activation)
+    /// and the depths of the register and value stacks (a RETURN that stands inside
+    /// a FOR or SELECT CASE block of the routine leaves those blocks).
+    go_sub_address_stack: Vec<(usize, usize, usize, usize)>,
 
     /// Holds the current call stack
     stacktrace: Vec<Position>,
@@ -500,21 +502,31 @@ impl<TStdlib: Stdlib, TStdIn: Input, TStdOut: Printer, TLpt1: Printer>
                 // the GOSUBs of the procedure that ends here are not pending any more
                 let call_depth = self.return_address_stack.len();
                 self.go_sub_address_stack
-                    .retain(|(_, depth)| *depth <= call_depth);
+                    .retain(|(_, depth, _, _)| *depth <= call_depth);
             }
             Instruction::GoSub(address_or_label) => {
-                self.go_sub_address_stack
-                    .push((i, self.return_address_stack.len()));
+                self.go_sub_address_stack.push((
+                    i,
+                    self.return_address_stack.len(),
+                    self.register_stack.len(),
+                    self.value_stack.len(),
+                ));
                 ctx.opt_next_index = Some(address_or_label.address());
             }
             Instruction::Return(opt_address) => {
                 let call_depth = self.return_address_stack.len();
                 match self.go_sub_address_stack.last() {
-                    Some((address, depth)) if *depth == call_depth => {
+                    Some((address, depth, register_depth, value_depth))
+                        if *depth == call_depth =>
+                    {
                         ctx.opt_next_index = Some(match opt_address {
                             Some(address_or_label) => address_or_label.address(),
                             _ => *address + 1,
                         });
+                        // leave the FOR and SELECT CASE blocks of the routine
+                        // that the RETURN stands in
+                        self.register_stack.truncate(*register_depth);
+                        self.value_stack.truncate(*value_depth);
                         self.go_sub_address_stack.pop();
                     }
                     // no GOSUB is pending, or only GOSUBs of the callers are
@@ -546,7 +558,8 @@ impl<TStdlib: Stdlib, TStdIn: Input, TStdOut: Printer, TLpt1: Printer>
                 // when the error happened are abandoned, not returned from
                 self.context.pop_to_module();
                 self.return_address_stack.clear();
-                self.go_sub_address_stack.retain(|(_, depth)| *depth == 0);
+                self.go_sub_address_stack
+                    .retain(|(_, depth, _, _)| *depth == 0);
                 self.stacktrace.clear();
                 self.saved_statement_marks.clear();
                 self.saved_print_states.clear();
